@@ -148,6 +148,43 @@ example : topN (ltImpl [false] (fun r => r.take 1)) 2 [[.int 2, .int 1], [.int 1
 
 example : topNPlan (ltImpl [true] (fun r => r)) 1 1 [[.int 2], [.null], [.int 3]] = [[.int 2]] := by decide
 
+/-! ## Finding on the unchanged tree: the order provided by a merge join over reverse index scans
+
+The Impl models above cover the Sort / TopN / Offset / Limit operators. When the ORDER is instead
+*provided by the plan* — index scans, and merge joins over index scans — the result is covered by
+the correspondence only. One such plan is wrong on the unchanged tree (region
+`reverse_merge_join_null_peek`, decided on the plan skeleton + data): the recorded engine output on
+the corpus witness is not even a permutation of the definition's result. -/
+
+def wDb : Db :=
+  [{ width := 2, rows := [[.int (-1), .int (-2)], [.null, .int 5], [.null, .int 6]] },
+   { width := 2, rows := [[.int (-1), .int 7], [.int 3, .int 8]] }]
+
+/-- `SELECT * FROM t0 s1 JOIN t1 s2 ON s1.c0 = s2.c0 ORDER BY s1.c0 DESC` -/
+def wQ : Query :=
+  .orderBy [.col 0 0] [true] (.join .inner (.cmp .eq (.col 0 0) (.col 0 2)) (.table 0) (.table 1))
+
+/-- What the engine returns under `MERGE_JOIN(s1,s2)` (MergeJoin over two reverse index scans),
+replayed with `.build/c04 sql` and on every run by the corpus case. -/
+def wObserved : List Row := List.replicate 3 [.int (-1), .int (-2), .int (-1), .int 7]
+
+theorem finding_reverse_merge_join_null_peek :
+    eval wDb wQ = [[.int (-1), .int (-2), .int (-1), .int 7]] ∧ ¬ (wObserved ~ eval wDb wQ) := by
+  refine ⟨by decide, ?_⟩
+  intro h
+  have := h.length_eq
+  revert this
+  decide
+
+/-- Guarded statement (the part of the engine that IS modelled): whenever the order is produced by
+the Sort / TopN / Offset operators, the Impl model returns exactly the definition's sequence — for
+every database, key list, direction list, limit and offset. -/
+theorem impl_eq_spec_partial (db : Db) (ks : List Expr) (ds : List Bool) (n m : Nat) (q : Query) :
+    evalQ db [] (.limit n m (.orderBy ks ds q))
+        = topNPlan (ltImpl ds (fun r => evalEs db [r] ks)) n m (evalQ db [] q)
+    ∧ evalQ db [] (.orderBy ks ds q) = sortL2R (ltImpl ds (fun r => evalEs db [r] ks)) (evalQ db [] q) :=
+  ⟨eval_limit_orderBy db [] ks ds n m q, eval_orderBy db [] ks ds q⟩
+
 /-! ## Regenerated facts -/
 
 /-- The decision points the Impl models transliterate are the ones in the source: `CompareRows`
